@@ -142,11 +142,7 @@ def check_one(job):
             out["sigs"].append(("unknown", f.detail))
             continue
         detail = norm(f.detail) if f.kind in ("syntax", "tmp-read-before-write", "type-error") else ""
-        if oc in ("builtin", "conv"):
-            # argument lists of functions are never traversed, whatever the statement: one root cause, no context
-            key = f"{f.kind}:nested-in-{oc}:{detail}"
-        else:
-            key = f"{f.kind}:{cname}:{oc}:{detail}"
+        key = f"{f.kind}:{cname}:{'nested-in-' + oc if oc in ('builtin', 'conv') else oc}:{detail}"
         if key not in kinds:
             kinds.add(key)
             out["sigs"].append((key, f"{f.kind}: {f.detail}"))
